@@ -10,7 +10,7 @@ def load_findings(prop):
     if os.path.exists(FINDINGS):
         for line in open(FINDINGS):
             line = line.strip()
-            if not line or line.startswith("#"): continue
+            if not line.startswith("{"): continue
             f = json.loads(line)
             if f.get("property") == prop: out.append(f)
     return out
